@@ -1255,12 +1255,33 @@ def fast_outcome(work, tag, prog, inputs, transform):
     return 'build', (text, drv, srcs)
 
 
+def first_error(work, tag, sources):
+    """First diagnostic of a failing build (lib_fm.compile_run keeps the tail of the log only)."""
+    import os
+    import subprocess
+    d = os.path.join(work, tag)
+    os.makedirs(d, exist_ok=True)
+    files = []
+    for name, text in sources:
+        with open(os.path.join(d, name), 'w') as fh:
+            fh.write(text)
+        files.append(name)
+    try:
+        c = subprocess.run(['gfortran', '-O0', '-w', '-fno-range-check', '-ffree-line-length-none', '-fmax-errors=1', '-o', 'a.out'] + files,
+                           cwd=d, capture_output=True, text=True, timeout=180)
+    except subprocess.TimeoutExpired:
+        return 'compile timeout'
+    return c.stderr[:1500]
+
+
 def fast_build(work, tag, built):
     text, drv, srcs = built
     st, out, err = F.compile_run(work, f'{tag}-o', [('kmod.f90', text), ('drv.f90', drv)])
     if st != 'ok':
         return 'invalid'
     st2, out2, err2 = F.compile_run(work, f'{tag}-n', list(srcs) + [('drv.f90', drv)])
+    if st2 == 'compile-error':
+        err2 = first_error(work, f'{tag}-e', list(srcs) + [('drv.f90', drv)])
     if st2 != 'ok':
         return sig_of(st2, err2)
     return sig_of('output', '') if out != out2 else None
@@ -1310,6 +1331,8 @@ def report(ctx, cases, results, fails, slices, per_group=2, rounds=12):
     programs are then re-judged by TLC in one batch; the key uses the smallest confirmed program."""
     transform = dispatch(slices)
     groups = {}
+    fails = [(idx, kind, first_error(ctx.work, f'fe{idx}', list(results[idx]['srcs']) + [('drv.f90', results[idx]['drv'])])
+              if kind == 'compile-error' and 'srcs' in results[idx] else msg) for idx, kind, msg in fails]
     for idx, kind, msg in fails:
         groups.setdefault((cases[idx][0]['slice'], sig_of(kind, msg)), []).append((idx, kind, msg))
     ctx.cover['failure_groups'] = {f'{k[0]}:{k[1]}': len(v) for k, v in sorted(groups.items())}
@@ -1331,7 +1354,8 @@ def report(ctx, cases, results, fails, slices, per_group=2, rounds=12):
             confirm.append((ri, h))
     if confirm:
         cres, cfails, _ = F.behaviour_check(ctx, 'confirm', [(h, cases[reps[ri]['idx']][1]) for ri, h in confirm], transform)
-        csig = {i: sig_of(kind, msg) for i, kind, msg in cfails}
+        csig = {i: sig_of(kind, first_error(ctx.work, f'fc{i}', list(cres[i]['srcs']) + [('drv.f90', cres[i]['drv'])])
+                          if kind == 'compile-error' and 'srcs' in cres[i] else msg) for i, kind, msg in cfails}
         for ci, (ri, h) in enumerate(confirm):
             if csig.get(ci) == reps[ri]['sig']:
                 reps[ri]['small'] = h          # later entries are smaller: the last confirmed one wins
